@@ -276,7 +276,13 @@ pub fn gen_hash_project(rng: &mut Rng, k: u64) -> Project {
         // banks and segments, the same file imported twice with parameter blocks
         5 => {
             p.label = format!("gen{}:banks_segments", k);
-            main.push_str(".define bank {\n    name = \"hdr\"\n    size = 16\n    fill = 0\n    create-segment = true\n}\n.define bank {\n    name = \"main\"\n}\n");
+            // sometimes the banks go to their own files (two banks may share one file)
+            let (f1, f2) = match rng.below(4) {
+                0 => ("    filename = \"hdr.bin\"\n", "    filename = \"main.bin\"\n"),
+                1 => ("    filename = \"both.bin\"\n", "    filename = \"both.bin\"\n"),
+                _ => ("", ""),
+            };
+            main.push_str(&format!(".define bank {{\n    name = \"hdr\"\n    size = 16\n    fill = 0\n    create-segment = true\n{}}}\n.define bank {{\n    name = \"main\"\n{}}}\n", f1, f2));
             main.push_str(".define segment {\n    name = \"code\"\n    start = $c000\n    bank = \"main\"\n}\n.define segment {\n    name = \"data\"\n    start = segments.code.end\n    bank = \"main\"\n}\n");
             main.push_str(".segment \"hdr\" {\n    .text \"HDR\"\n    .byte 1, 2\n}\n");
             main.push_str(".segment \"code\" {\nstart:\n    jsr set_a\n    jsr set_b\n    lda table\n    rts\n");
